@@ -942,7 +942,7 @@ fn equals_object_step_case() {
     core::mem::forget((lhs, rhs, lt, rt, env));
 }
 
-// @harness id=c08_equals_objects props=C08,C07 tier=quick cap=1800 unwindset=9Evaluator3run@first:1
+// @harness id=c08_equals_objects props=C08,C07 tier=thorough cap=2700 unwindset=9Evaluator3run@first:1
 // @desc one iteration of the real Evaluator::run per case. EqualsValue on the objects {a, b} and {a, b, c} (c visible and b of ANY visibility on the right; c hidden and b of ANY visibility on both sides): the objects can only be equal if their sets of VISIBLE field names are the same (hidden fields do not count; the same number of visible fields is not enough); then the comparison starts with the smallest visible name (lhs field evaluated first) and keeps the remaining names in order; no visible fields at all is equal at once. EqualsObject with 0, 1 or 2 fields left and ANY verdict of the field just compared: the last field's verdict is the verdict, a different field decides at once (later fields are never evaluated), an equal field schedules exactly the next name
 // @bound one loop iteration per case; one-layer objects of 2 and 3 fields; get_fields_order is stubbed by 'return the cached list' (the harness objects carry it; computing it is C07's subject)
 // @funcs Evaluator::run (arms State::EqualsValue, State::EqualsObject), ObjectData::get_visible_fields_order, Program::find_object_field_thunk, ObjectData::find_field
